@@ -17,6 +17,7 @@ import (
 func genC08(t *rapid.T) ArgvCase {
 	cfg := DefaultCfg()
 	cfg.RequireOrder = 0
+	cfg.CmdRO = true // a wrapper command may use require-order; unknown options standing before it are still unknown
 	cfg.Help = 1
 	cfg.MixedUnknown = true // wrapper commands typically run in Pass mode under a Fail/Warn root
 	cfg.SingleLetters = rapid.IntRange(0, 1).Draw(t, "sl")
